@@ -12,7 +12,8 @@
    Some bytes = what the reader's buffer held (read, or peek followed by reclaim), None = reclaimed unseen. *)
 From Coq Require Import ZArith List Bool.
 Require Import Verif.gen.Consts_rb Verif.gen.Consts_rbconc Verif.RbModel Verif.RbSpec Verif.RbConcModel
-  Verif.RbConcProofs Verif.RbConcProofsInv Verif.RbConcProofsTok Verif.RbConcProofsSeq Verif.RbConcProofsEx.
+  Verif.RbConcProofs Verif.RbConcProofsInv Verif.RbConcProofsTok Verif.RbConcProofsTok2 Verif.RbConcProofsMo
+  Verif.RbConcProofsSeq Verif.RbConcProofsEx.
 Import ListNotations.
 Local Open Scope Z_scope.
 
@@ -109,6 +110,34 @@ Theorem C01_token_step : forall t s s' o, Inv s -> TokInv s -> no_peek (g_r s) -
   TokInv s' /\ no_peek (g_r s').
 Proof. exact tok_step. Qed.
 Print Assumptions C01_token_step.
+
+(* ... and no lost-wake-up deadlock: if the reader is blocked in sem_wait (its step is not enabled although its program
+   is not finished) and the writer has nothing left to do, then nothing published is unread *)
+Theorem C01_no_lost_wakeup_deadlock : forall h pw pr sched, wf_ring h -> Forall (fun c => is_peek c = false) pr ->
+  let s := exec sched (init h pw pr) in
+  r_prog (g_r s) <> [] -> step TR s = None -> step TW s = None ->
+  length (g_got s) = length (g_pub s).
+Proof. exact all_no_deadlock. Qed.
+Print Assumptions C01_no_lost_wakeup_deadlock.
+
+(* buffer-full is exact: the admission test of a write (step WRdRpt) is evaluated on the true content of the ring at
+   that moment - the write is refused exactly when the unread chunks (+ the gap word) leave less than len + MARGIN
+   bytes; in particular an empty ring accepts every len <= 4W - MARGIN *)
+Theorem C01_refusal_exact : forall s w1 r, Inv s -> w_pc (g_w s) = WRdRpt w1 -> wstep (g_sh s) (g_w s) = Some r ->
+  (s_ret r = Some (- RB_EAGAIN, []) <->
+   room_bytes (hW (g_sh s)) (unread s) < zlen (wdata (g_w s)) + RB_CHUNK_MARGIN).
+Proof. exact refusal_exact. Qed.
+Print Assumptions C01_refusal_exact.
+
+(* buffer-empty is never spurious: while a published chunk is unread, the pointer test and the marker test of
+   read / peek / reclaim pass *)
+Theorem C01_no_spurious_empty : forall s r, Inv s -> unread s <> [] -> rstep (g_sh s) (g_r s) = Some r ->
+  (forall rp, r_pc (g_r s) = RRdWpt rp -> r_pc (s_t r) = RRdMagic rp /\ s_ret r = None) /\
+  (forall rp, r_pc (g_r s) = RRdMagic rp -> r_pc (s_t r) = RRdSize rp /\ s_ret r = None) /\
+  (forall rp, r_pc (g_r s) = RcRdWpt rp -> r_pc (s_t r) = RcRdMagic rp /\ s_ret r = None) /\
+  (forall rp, r_pc (g_r s) = RcRdMagic rp -> r_pc (s_t r) = RcRdSize1 rp /\ s_ret r = None).
+Proof. exact no_spurious_empty. Qed.
+Print Assumptions C01_no_spurious_empty.
 
 (* a write reports success only by publishing its chunk: the return of the length happens in the publishing step
    itself, or in the sem_post step that is entered only from the publishing step of the same call *)
@@ -219,3 +248,132 @@ Example C01_example_tokens :
   length (g_pub ex2_after) = 2%nat /\ length (g_got ex2_after) = 1%nat.
 Proof. exact ex2_tokens. Qed.
 Print Assumptions C01_example_tokens.
+
+(* ---------------------------------------------------------------------------------------------------------------
+   increment 2 (requested by the lead)
+   --------------------------------------------------------------------------------------------------------------- *)
+
+(* (1) the notifier for readers that peek and then reclaim - the IPC shm server side does exactly that (funcs.peek,
+   then funcs.reclaim) - reads and bare reclaims anywhere: tokens in the semaphore + tokens the reader holds (inside a
+   read / peek call past its wait, or for the chunk it has peeked and not yet reclaimed) + the writer's pending post
+   >= unread chunks, in every reachable state; so whenever a published chunk is unread the count is positive or the
+   reader holds a token or the writer is just about to post *)
+Theorem C01_tokens_peek_reclaim : forall h pw pr sched c0, wf_ring h -> hsem h = Some c0 -> peek_reclaim pr ->
+  let s := exec sched (init h pw pr) in
+  exists c, hsem (g_sh s) = Some c /\
+            c + held (g_r s) + wtok (g_w s) >= Z.of_nat (length (g_pub s)) - Z.of_nat (length (g_got s)) /\
+            ((length (g_got s) < length (g_pub s))%nat -> 0 < c \/ held (g_r s) = 1 \/ wtok (g_w s) = 1).
+Proof. exact all_tokens2. Qed.
+Print Assumptions C01_tokens_peek_reclaim.
+
+(* ... hence a reader blocked in sem_wait (blocking timedwait) cannot sleep while a chunk is queued and the writer has
+   nothing left to do *)
+Theorem C01_no_lost_wakeup_deadlock_peek_reclaim : forall h pw pr sched c0, wf_ring h -> hsem h = Some c0 ->
+  peek_reclaim pr ->
+  let s := exec sched (init h pw pr) in
+  r_prog (g_r s) <> [] -> step TR s = None -> step TW s = None ->
+  length (g_got s) = length (g_pub s).
+Proof. exact all_no_deadlock2. Qed.
+Print Assumptions C01_no_lost_wakeup_deadlock_peek_reclaim.
+
+Theorem C01_token_step_peek_reclaim : forall t s s' o, Inv s -> hsem (g_sh s) <> None -> TokInv2 s -> disc (g_r s) ->
+  step t s = Some (s', o) -> hsem (g_sh s') <> None /\ TokInv2 s' /\ disc (g_r s').
+Proof. exact tok2_step. Qed.
+Print Assumptions C01_token_step_peek_reclaim.
+
+(* the same with the discipline as a condition on the RUN instead of on the program text: the IPC server reclaims only
+   after a peek that succeeded (lib/ipcs.c:_process_request_), which a static call list cannot express.  If, after every
+   prefix of the schedule, a reader that is between calls and holds a peeked chunk has qb_rb_chunk_reclaim as its next
+   call, the token bound holds - whatever the other calls are and however the peeks turned out *)
+Theorem C01_tokens_when_peeks_are_reclaimed : forall h pw pr sched c0, wf_ring h -> hsem h = Some c0 ->
+  every_prefix (fun x => next_is_reclaim (g_r x)) sched (init h pw pr) ->
+  let s := exec sched (init h pw pr) in
+  exists c, hsem (g_sh s) = Some c /\
+            c + held (g_r s) + wtok (g_w s) >= Z.of_nat (length (g_pub s)) - Z.of_nat (length (g_got s)) /\
+            ((length (g_got s) < length (g_pub s))%nat -> 0 < c \/ held (g_r s) = 1 \/ wtok (g_w s) = 1).
+Proof. exact all_tokens_dyn. Qed.
+Print Assumptions C01_tokens_when_peeks_are_reclaimed.
+
+Example C01_example_peeks_reclaimed_run :
+  every_prefix (fun x => next_is_reclaim (g_r x)) ex4_sched ex4_init /\
+  let s := exec ex4_sched ex4_init in
+  hsem (g_sh s) = Some 0 /\ length (g_pub s) = 2%nat /\ length (g_got s) = 1%nat /\ held (g_r s) = 1.
+Proof. exact ex4_ok. Qed.
+Print Assumptions C01_example_peeks_reclaimed_run.
+
+Example C01_example_peek_reclaim :
+  wf_ring ex_ring /\ hsem ex_ring = Some 0 /\
+  r_pc (g_r ex3_state) = RCall /\ r_have (g_r ex3_state) = true /\ hsem (g_sh ex3_state) = Some 1 /\
+  length (g_pub ex3_state) = 2%nat /\ length (g_got ex3_state) = 0%nat.
+Proof. exact ex3_ok. Qed.
+Print Assumptions C01_example_peek_reclaim.
+
+(* (2) one state for two handles: no micro-step of either thread changes word_size or the notifier mode; write_pt is
+   stored only by the writer, read_pt only by the reader.  (On the implementation side the harness compares both
+   private handle structures and word_size / ref_count / path names of the shared header with copies taken before the
+   run after every scheduling step.) *)
+Theorem C01_static_fields : forall t s s' o, step t s = Some (s', o) ->
+  hW (g_sh s') = hW (g_sh s) /\ (hsem (g_sh s') = None <-> hsem (g_sh s) = None) /\
+  match t with TW => hrpt (g_sh s') = hrpt (g_sh s) | TR => hwpt (g_sh s') = hwpt (g_sh s) end.
+Proof. exact step_static. Qed.
+Print Assumptions C01_static_fields.
+
+(* (3) what stands behind the comparison of memory orders (NOT a weak-memory proof: the semantics is SC; these are
+   program-order facts about the two micro-step programs).  Every marker access is acquire (loads) / release (stores): *)
+Theorem C01_mo_marker_orders : forall h l mo,
+  (forall t r, wstep h t = Some r -> (s_lab r = LAWr l mo -> mo = RBC_MO_RELEASE) /\ s_lab r <> LARd l mo) /\
+  (forall t r, rstep h t = Some r -> (s_lab r = LAWr l mo -> mo = RBC_MO_RELEASE) /\ (s_lab r = LARd l mo -> mo = RBC_MO_ACQUIRE)).
+Proof. exact mo_marker_orders. Qed.
+Print Assumptions C01_mo_marker_orders.
+
+(* reader: whatever a step touches in the data area (size word, payload byte, the kill stores) it touches at a pc that is
+   program-order-after an acquire load, in the same call, of the marker of that very chunk which returned MAGIC: such a
+   pc (r_acquired = Some rp) is entered only by that load (second theorem) and the call starts with none *)
+Theorem C01_mo_reader_access_after_acquire : forall h t r, rstep h t = Some r ->
+  match s_lab r with
+  | LRd (DW i) | LWr (DW i) => r_acquired (r_pc t) = Some i
+  | LRdB a => exists rp k, r_acquired (r_pc t) = Some rp /\ r_pc t = RCopy rp k /\
+                           a = (4 * ((rp + RB_CHUNK_HEADER_WORDS) mod hW h) + k) mod (4 * hW h)
+  | LAWr (DW i) _ => exists old, r_acquired (r_pc t) = Some old /\ i = (old + 1) mod hW h
+  | LWrB _ => False
+  | _ => True
+  end.
+Proof. exact r_data_access_after_acquire. Qed.
+Print Assumptions C01_mo_reader_access_after_acquire.
+
+Theorem C01_mo_reader_acquire_entry : forall h t r rp, rstep h t = Some r -> r_acquired (r_pc (s_t r)) = Some rp ->
+  r_acquired (r_pc t) = Some rp \/
+  (s_lab r = LARd (DW ((rp + 1) mod hW h)) RBC_MO_ACQUIRE /\ ldw (hmem h) ((rp + 1) mod hW h) = RB_CHUNK_MAGIC /\
+   s_ret r = None).
+Proof. exact r_acquire_entry. Qed.
+Print Assumptions C01_mo_reader_acquire_entry.
+
+(* writer: every store into the data area happens while the chunk is being filled, and from such a point the call goes
+   on filling or performs the release store of MAGIC (the publishing step) - it never returns in between; MAGIC is
+   stored by that step only (the other marker stores write ALLOC / DEAD) *)
+Theorem C01_mo_writer_store_before_release : forall h t r, wstep h t = Some r ->
+  match s_lab r with
+  | LWr (DW i) => w_filling (w_pc t) = Some i
+  | LWrB a => exists wp k rest, w_pc t = WCopy wp k rest /\
+                                a = (4 * ((wp + RB_CHUNK_HEADER_WORDS) mod hW h) + k) mod (4 * hW h)
+  | LAWr (DW i) _ => exists wp, w_filling (w_pc t) = Some wp /\ i = (wp + 1) mod hW h
+  | LRdB _ => False
+  | _ => True
+  end.
+Proof. exact w_data_store_before_release. Qed.
+Print Assumptions C01_mo_writer_store_before_release.
+
+Theorem C01_mo_writer_filling_ends_in_release : forall h t r, wstep h t = Some r -> w_filling_any (w_pc t) = true ->
+  (w_filling_any (w_pc (s_t r)) = true /\ s_ret r = None /\ s_gh r = GNone) \/
+  (exists old, w_pc t = WStMagic old /\ s_lab r = LAWr (DW ((old + 1) mod hW h)) RBC_MO_RELEASE /\
+               s_gh r = GPub (wdata t) /\ hmem (s_sh r) = stw (hmem h) ((old + 1) mod hW h) RB_CHUNK_MAGIC).
+Proof. exact w_filling_ends_in_release. Qed.
+Print Assumptions C01_mo_writer_filling_ends_in_release.
+
+Theorem C01_mo_marker_values : forall h i mo,
+  (forall t r, wstep h t = Some r -> s_lab r = LAWr (DW i) mo ->
+     (hmem (s_sh r) = stw (hmem h) i RB_CHUNK_MAGIC /\ exists d, s_gh r = GPub d) \/
+     (hmem (s_sh r) = stw (hmem h) i RB_CHUNK_MAGIC_ALLOC /\ s_gh r = GNone)) /\
+  (forall t r, rstep h t = Some r -> s_lab r = LAWr (DW i) mo -> hmem (s_sh r) = stw (hmem h) i RB_CHUNK_MAGIC_DEAD).
+Proof. exact mo_marker_values. Qed.
+Print Assumptions C01_mo_marker_values.
